@@ -9,7 +9,7 @@ COMMON_ASSUMPTIONS = [
 
 PROPERTIES: dict[str, dict] = {
     "C01": {
-        "rules": ["R-BLISS", "R-FLOW-CANON", "R-FLOW-SERIAL", "R-KEYS", "R-BIJ", "R-OWNFIRST", "R-HASH", "R-INDEXSPACE", "R-GRAPHBUILD", "R-REBUILD", "R-ATTRREAD", "R-GLOBAL", "R-IDXTRUTH"],
+        "rules": ["R-BLISS", "R-FLOW-CANON", "R-FLOW-SERIAL", "R-KEYS", "R-BIJ", "R-OWNFIRST", "R-HASH", "R-INDEXSPACE", "R-GRAPHBUILD", "R-REBUILD", "R-ATTRREAD", "R-GLOBAL", "R-IDXTRUTH", "R-CANONPATH"],
         "thorough_rules": ["R-LIBSRC"],
         "technique": "information-flow (order/label/hash taint) abstract interpretation + index-space typing of the bliss call site",
         "explanation": "Non-interference proof over all paths of canonicalize_molecule and serialize_molecule: colours handed to bliss carry no "
@@ -40,7 +40,7 @@ PROPERTIES: dict[str, dict] = {
         "assumptions": COMMON_ASSUMPTIONS,
     },
     "C04": {
-        "rules": ["R-BLISS", "R-BIJ", "R-FLOW-CANON", "R-COPY", "R-KEYS", "R-OWNFIRST", "R-GRAPHBUILD", "R-INDEXSPACE", "R-ATTRREAD", "R-GLOBAL"],
+        "rules": ["R-BLISS", "R-BIJ", "R-FLOW-CANON", "R-COPY", "R-KEYS", "R-OWNFIRST", "R-GRAPHBUILD", "R-INDEXSPACE", "R-ATTRREAD", "R-GLOBAL", "R-CANONPATH"],
         "thorough_rules": ["R-LIBSRC"],
         "technique": "index-space typing of the bliss call site + taint analysis of the colour vector",
         "explanation": "The property's own mechanism: label-independent colours (taint proof), bliss called with them, its result used in the "
@@ -102,7 +102,7 @@ PROPERTIES: dict[str, dict] = {
         "assumptions": COMMON_ASSUMPTIONS + ["numbers in TUCAN strings stay below the interpreter's integer-conversion limit"],
     },
     "C11": {
-        "rules": ["R-FLOW-PARSE", "R-BLISS", "R-FLOW-CANON", "R-FLOW-SERIAL", "R-BIJ", "R-KEYS", "R-REBUILD", "R-ATTRREAD", "R-GLOBAL", "R-CODEC", "R-REJECT", "R-PARSEPATH"],
+        "rules": ["R-FLOW-PARSE", "R-BLISS", "R-FLOW-CANON", "R-FLOW-SERIAL", "R-BIJ", "R-KEYS", "R-REBUILD", "R-ATTRREAD", "R-GLOBAL", "R-CODEC", "R-REJECT", "R-PARSEPATH", "R-CANONPATH"],
         "thorough_rules": ["R-LIBSRC"],
         "technique": "taint analysis of the parser listener composed with the C01 flow proof",
         "explanation": "Spelling (tuple order, orientation, repetition, block order) reaches the parsed graph only as insertion order; the pipeline is "
@@ -120,7 +120,7 @@ PROPERTIES: dict[str, dict] = {
         "assumptions": COMMON_ASSUMPTIONS,
     },
     "C13": {
-        "rules": ["R-FLOW-CANON", "R-OWNFIRST", "R-FIXPOINT", "R-KEYS", "R-ATTRREAD", "R-GLOBAL"],
+        "rules": ["R-FLOW-CANON", "R-OWNFIRST", "R-FIXPOINT", "R-KEYS", "R-ATTRREAD", "R-GLOBAL", "R-CANONPATH"],
         "technique": "taint analysis of the class values + structural rules on the refinement key and its termination idiom",
         "explanation": "Class values carry no label/order/hash taint; the refinement key starts with the atom's own class and continues with the sorted "
                        "neighbour classes, ids are dense ranks of the sorted key set; the driver returns only a partition whose class count equals "
